@@ -323,23 +323,32 @@ def check(ctx):
             ctx.inst('R2', cb, 'info-format[%s]' % ('V2' if v2 else 'V1'), fmt == want[v2]['info_fmt'], 'info reply decoded with %r, expected %r' % (fmt, want[v2]['info_fmt']))
         else:
             ctx.inst('R2', cb, 'id-format[V2]', v2 and fmt == '<H', 'element index decoded with %r under V2=%s' % (fmt, v2))
+    def branches(node, expr, depth=0):
+        """[(nodes whose facts apply, expression)]: a local with several reaching plain assignments is followed into each of them"""
+        if isinstance(expr, ast.Name) and depth < 3:
+            ds = [d for d in g.reaching_defs(node, expr.id) if isinstance(d.ast, ast.Assign)]
+            if ds:
+                out = []
+                for d in ds:
+                    for ns, e in branches(d, d.ast.value, depth + 1):
+                        out.append(([node, d] + ns, e))
+                return out
+        return [([node], expr)]
     for n, x in adds:
-        v2 = fact_key('self._useV2', True) in g.fact_keys_at(n)
         a = x.args[0]
-        sl = a.args[1] if isinstance(a, ast.Call) and len(a.args) > 1 else None
-        low = sl.slice.lower if isinstance(sl, ast.Subscript) and isinstance(sl.slice, ast.Slice) and sl.slice.lower else None
-        if isinstance(low, ast.Name) and len(g.reaching_defs(n, low.id)) > 1:
-            # the width is held in a local that each protocol branch sets: compare per branch of the binding
-            for d in g.reaching_defs(n, low.id):
-                dv2 = fact_key('self._useV2', True) in g.fact_keys_at(d)
-                lo = fold_in(cb, d.ast.value) if isinstance(d.ast, ast.Assign) else None
-                ctx.inst('R2', cb, 'element-offset[%s]' % ('V2' if dv2 else 'V1'), lo == want[dv2]['id_width'] and sl.slice.upper is None and
-                         (dv2 or fact_key('self._useV2', False) in g.fact_keys_at(d)),
-                         'element data must start after the %d index byte(s); %s = %s' % (want[dv2]['id_width'], low.id, lo))
-            continue
-        lo = fold_in(cb, low) if low is not None else None
-        ctx.inst('R2', cb, 'element-offset[%s]' % ('V2' if v2 else 'V1'), lo == want[v2]['id_width'] and sl.slice.upper is None,
-                 'element data must start after the %d index byte(s); slice %s' % (want[v2]['id_width'], norm(sl) if sl is not None else None))
+        arg = a.args[1] if isinstance(a, ast.Call) and len(a.args) > 1 else None
+        ctx.need(arg is not None, '_new_packet_cb: element constructor call not recognised')
+        for ns1, sl in branches(n, arg):
+            low = sl.slice.lower if isinstance(sl, ast.Subscript) and isinstance(sl.slice, ast.Slice) and sl.slice.lower else None
+            for ns2, lo_e in (branches(ns1[-1], low) if low is not None else [([], None)]):
+                keys = set()
+                for q in ns1 + ns2:
+                    keys |= set(g.fact_keys_at(q))
+                v2 = fact_key('self._useV2', True) in keys
+                lo = fold_in(cb, lo_e) if lo_e is not None else None
+                ctx.inst('R2', cb, 'element-offset[%s]' % ('V2' if v2 else 'V1'), lo == want[v2]['id_width'] and isinstance(sl, ast.Subscript) and sl.slice.upper is None and
+                         norm(sl.value) == 'payload' and (v2 or fact_key('self._useV2', False) in keys),
+                         'element data must start after the %d index byte(s) of the payload; slice %s' % (want[v2]['id_width'], norm(sl)))
     pl = [s for s in walk_own(cb.node) if isinstance(s, ast.Assign) and norm(s.targets[0]) == 'payload']
     ctx.inst('R2', cb, 'payload=data[1:]', len(pl) == 1 and norm(pl[0].value) == '%s.data[1:]' % pkv, 'payload skips the command byte')
 
